@@ -1,5 +1,6 @@
 CONSTANTS
   PinnedEnv = FALSE
+  Accumulate = FALSE
   PinnedVars = FALSE
 INIT Init
 NEXT Next
